@@ -2,6 +2,7 @@
   C15, whole histories — the update backlog holds one pending update per address in every reachable state.
 -/
 import FocaModel.Proofs.UpdInv
+import FocaModel.Proofs.UpdReach
 import FocaModel.Props.C08H
 namespace Foca.C15H
 open Foca
@@ -33,5 +34,39 @@ example : ∃ s, Reachable C08H.exEnv s ∧ s.updates.map (·.key) = [2] := by
   refine ⟨_, Reachable.step (.applyMany [⟨⟨2, 0⟩, 0, .alive⟩] true) ⟨[.idx 0], []⟩ _ _ _
     (Reachable.init ⟨1, 0⟩ .none C08H.exCfg) rfl, ?_⟩
   decide
+
+/-- **Per datagram, by key.** One `fill` writes one item per entry it takes, and the transmissions left for an
+    address drop by exactly the number of times its entry was written (any tie order the heap may use). -/
+theorem each_write_costs_its_entry_one_transmission {b : List (Entry Nat)} {space : Nat} {picks : List Bytes}
+    {r : FillResult Nat} (h : fill b space Gen.fillMaxItems 0 picks = some r) (k : Nat) :
+    txOf (r.pending ++ r.done) k + (fillKeys b space picks).count k = txOf b k ∧
+    (fillKeys b space picks).length = r.written.length := fill_tx h k
+
+/-- **Whole life of an update.** Over *any* sequence of backlog operations — datagrams (`fill`, any space, any
+    tie order) and enqueues of updates about *other* addresses — of any length, the number of times the update
+    about address `k` is written plus the transmissions it has left is constant … -/
+theorem transmissions_are_conserved (b b' : List (Entry Nat)) (k : Nat) (ops : List BOp)
+    (hno : ∀ op ∈ ops, BOp.enqueues k op = false) (h : runOps b ops = some b') :
+    txOf b' k + writesOver b k ops = txOf b k := lifetime_account b b' k ops hno h
+
+/-- … so an update enqueued with `max_transmissions = m` is written into at most `m` datagrams before a newer
+    update about the same address replaces it, however long the history. -/
+theorem at_most_max_transmissions_over_its_life (b b' : List (Entry Nat)) (k : Nat) (d : Bytes) (m : Nat)
+    (ops : List BOp) (hno : ∀ op ∈ ops, BOp.enqueues k op = false)
+    (h : runOps (addOrReplace b Gen.addrInvalidates k d m) ops = some b') :
+    writesOver (addOrReplace b Gen.addrInvalidates k d m) k ops ≤ m :=
+  written_at_most_max_transmissions b b' k d m ops hno h
+
+/-- These backlog operations are all that ever happens to an instance's backlog: one public call — any input, any
+    RNG, any tie order — takes `updates` to the result of a sequence of enqueues and fills. -/
+theorem backlog_changes_only_by_enqueue_and_fill (E : Env) (s : State) (op : Op) (orc : Oracle) :
+    match step E s op orc with
+    | .done s' _ _ _ => ∃ ops, runOps s.updates ops = some s'.updates
+    | .stuck _ => True := updates_evolve_by_backlog_ops E s op orc
+
+/-- non-vacuity: an update with two transmissions, written by two datagrams, is gone; a third finds nothing -/
+example : runOps (addOrReplace [] Gen.addrInvalidates 7 [1, 2, 3] 2) [.fill 100 [[1, 2, 3]], .fill 100 [[1, 2, 3]]] = some [] ∧
+    writesOver (addOrReplace [] Gen.addrInvalidates 7 [1, 2, 3] 2) 7 [.fill 100 [[1, 2, 3]], .fill 100 [[1, 2, 3]]] = 2 ∧
+    runOps [] [.fill 100 [[1, 2, 3]]] = none := by decide
 
 end Foca.C15H
